@@ -4,7 +4,10 @@ CONSTANTS
  Index = "index.wtml"
  MaxFaults = 2
  Atomic = FALSE
+ TopOf <- MCTopOf
+ Traversal = "listdir"
 INVARIANT TypeOK
+INVARIANT NestedClosed
 INVARIANT QIndexImpliesAll
 INVARIANT QPublishedImpliesAll
 INVARIANT QRefreshSafe
